@@ -40,7 +40,7 @@ def run(tier):
         if x["kind"] in ("trait", "group"):
             e = (exp_t if x["kind"] == "trait" else exp_g)[x["name"]]
             for direction in ("got", "rev"):
-                via = " (root reaches the trait through a method returning an object of it)" if x.get("via") else ""
+                via = {"return": " (root reaches the trait through a method returning an object of it)", "check_fn": " (through VerifyLayout::check)"}.get(x.get("via"), "")
                 if e["expect"] == "Valid" and x[direction] != "Valid":
                     c.violation("%s edit '%s'%s keeps the C-visible interface but comparing the layouts reports %s" % (x["kind"], x["name"], via, x[direction]),
                                 {"edit": e, "observed": x})
